@@ -39,24 +39,6 @@ theorem valueRefFrom_noPanic_of (fx : Fix) (b : Bytes)
 theorem valueRefFrom_fixed_noPanic (fx : Fix) (hmd : fx.extraLen = true) (b : Bytes) : NoPanic (valueRefFrom fx b) :=
   valueRefFrom_noPanic_of fx b (txMetadata_readFrom_fixed_noPanic fx hmd)
 
-theorem valueRefFrom_rel (b : Bytes) : PanicOr (valueRefFrom Fix.none b) (valueRefFrom Fix.all b) := by
-  unfold valueRefFrom
-  c16_consts
-  have h32 : sha256Size = 32 := rfl
-  simp only []
-  refine PanicOr.ite (fun _ => PanicOr.refl _) (fun hlen => ?_)
-  simp (disch := omega) only [bind_eq, pure_eq, be64At_ok, be32At_ok, be16At_ok, sliceFrom_ok, M.pure_bind]
-  refine PanicOr.bind ?_ (fun r => PanicOr.refl _)
-  refine PanicOr.ite (fun _ => ?_) (fun _ => PanicOr.refl _)
-  refine PanicOr.ite (fun _ => PanicOr.refl _) (fun h2 => ?_)
-  refine PanicOr.ite (fun _ => PanicOr.refl _) (fun hg => ?_)
-  simp only [Bool.or_eq_true, decide_eq_true_eq, not_or] at hg
-  refine PanicOr.bind ?_ (fun r => PanicOr.refl _)
-  refine PanicOr.ite (fun _ => ?_) (fun _ => PanicOr.refl _)
-  rw [slice_ok (by omega) (by omega)]
-  simp only [M.pure_bind]
-  exact PanicOr.bind (txMetadata_readFrom_rel _) (fun md => PanicOr.refl _)
-
 theorem valueRefFrom_alloc (fx : Fix) (b : Bytes) :
     allocated (valueRefFrom fx b) ≤ storeMaxTxMetadataLen + 65535 := by
   show AllocLe _ _
